@@ -546,6 +546,11 @@ class World:
                 junk = [pt.ScratchVar(pt.TealType.uint64) for _ in range(n)]
             elif w == "abi":
                 junk = [pt.abi.Uint64() for _ in range(n)]
+            elif w == "decls":
+                # an unrelated program with n subroutines, compiled: n declarations evaluated and kept
+                subs = [pt.Subroutine(pt.TealType.uint64)(_churn_body(i)) for i in range(n)]
+                prog = pt.Seq(*[pt.Pop(f()) for f in subs], pt.Int(1))
+                junk = [subs, pt.compileTeal(prog, pt.Mode.Application, version=6 if n % 2 else 8)]
             else:
                 junk = [pt.Subroutine(pt.TealType.uint64)(_churn_body(i)) for i in range(n)]
             self.churn_keep.append(junk if n % 2 else None)
